@@ -330,13 +330,10 @@ func run(c *runner.Ctx) {
 	// F2: two fields
 	c.Space("two-fields")
 	second := l2
-	if !c.Thorough() {
-		second = l1
-	}
 	for k0 := 0; k0 < 2; k0++ {
 		for _, it0 := range l2 {
 			for vi0, v0 := range kinds[k0].vals {
-				if k0 == 0 && (vi0 == 1 || vi0 == 4) && !c.Thorough() {
+				if k0 == 0 && vi0 == 4 && !c.Thorough() {
 					continue
 				}
 				for k1 := 0; k1 < len(kinds); k1++ {
